@@ -337,6 +337,12 @@ fn formats_variant<V: Variant>(ctx: &Ctx, rep: &mut Report) {
             let m = mutate(&mut rng, d);
             document_check::<V>(f, &m, rep);
         }
+        {
+            let s = super::c12::non_ascii_string::<V>(&mut rng);
+            let doc = serde_json::to_string(&s).unwrap_or_default();
+            document_check::<V>(0, doc.as_bytes(), rep);
+            rep.count("documents:json:non_ascii_strings", 1);
+        }
         for lit in ["null", "12", "[1,2]", "{}", "true", "\"\"", "\"T1\"", "1.5", "[\"T1\"]"] {
             if i == 0 {
                 document_check::<V>(0, lit.as_bytes(), rep);
@@ -534,9 +540,10 @@ impl<'de, 'a: 'de> de::Deserializer<'de> for MockDe<'a> {
     }
 }
 
-pub const PAYLOAD_KINDS: [&str; 9] = [
+pub const PAYLOAD_KINDS: [&str; 10] = [
     "valid-text", "valid-text-bare-lowercase", "valid-bytes", "strict-invalid-checksum-bytes",
     "strict-invalid-length-bytes", "strict-invalid-text", "wrong-length", "bad-digit", "non-utf8",
+    "utf8-multibyte-of-accepted-byte-length",
 ];
 
 pub fn gen_payload<V: Variant>(rng: &mut Rng, kind: usize) -> Vec<u8> {
@@ -578,12 +585,13 @@ pub fn gen_payload<V: Variant>(rng: &mut Rng, kind: usize) -> Vec<u8> {
             t[p] = b'G';
             t
         }
-        _ => {
+        8 => {
             let mut t = if rng.chance(1, 2) { oracle::encode_text(&b, V::CK, true) } else { rng.bytes(V::SIZE) };
             let p = rng.below(t.len() as u64) as usize;
             t[p] = 0xff;
             t
         }
+        _ => super::c12::non_ascii_string::<V>(rng).into_bytes(),
     }
 }
 
@@ -803,7 +811,7 @@ where
 }
 
 pub fn run_mock(ctx: &Ctx, rep: &mut Report) {
-    rep.rule = "a scripted mock Deserializer: is_human_readable in {true,false} x 18 visitor events (str / borrowed str / string / bytes / borrowed bytes / byte_buf / integers / float / bool / char / unit / none / some / newtype / seq of u8 / map) x 9 payload classes (valid text, bare lower-case text, valid bytes, strict-invalid checksum bytes, strict-invalid length bytes, strict-invalid text, wrong length, bad digit, non-UTF-8) x 5 variants, every call under catch_unwind: the matching event class must agree exactly with the matching parser, other spellings may only be rejected or accepted as what a parser makes of the payload, wrong types must be errors; plus a mock Serializer recording what is emitted for both is_human_readable values; distinct by fingerprint of the payload".into();
+    rep.rule = "a scripted mock Deserializer: is_human_readable in {true,false} x 18 visitor events (str / borrowed str / string / bytes / borrowed bytes / byte_buf / integers / float / bool / char / unit / none / some / newtype / seq of u8 / map) x 10 payload classes (valid text, bare lower-case text, valid bytes, strict-invalid checksum bytes, strict-invalid length bytes, strict-invalid text, wrong length, bad digit, non-UTF-8) x 5 variants, every call under catch_unwind: the matching event class must agree exactly with the matching parser, other spellings may only be rejected or accepted as what a parser makes of the payload, wrong types must be errors; plus a mock Serializer recording what is emitted for both is_human_readable values; distinct by fingerprint of the payload".into();
     all_variants!(mock_variant, ctx, rep);
     rep.set_floor("cells", (2 * 18 * PAYLOAD_KINDS.len()) as u64);
     let _ = buffered();
